@@ -15,16 +15,19 @@ Lemma firstn_app_exact {A} (a b : list A) : firstn (length a) (a ++ b) = a.
 Proof. induction a; cbn; [reflexivity|]. f_equal. auto. Qed.
 
 Section BSOk.
-Variable hdr : text -> text.
+Variable hdr : text -> text -> text.
 Variable compile : text -> option text.
 Variable fmt : text -> text.
 
 Notation run := (run hdr compile fmt).
 Notation output := (output hdr fmt).
+Notation content := (content hdr).
 Notation source_header := (source_header hdr).
 Notation up_to_date := (up_to_date hdr).
 Notation fresh := (fresh hdr compile fmt).
+Notation produced := (produced hdr compile fmt).
 Notation exec := (exec hdr compile fmt).
+Notation step := (step hdr compile fmt).
 
 (* a run that fails leaves everything exactly as it was *)
 Theorem failed_run_untouched c s s' : run c s = (RErr, s') -> s' = s.
@@ -46,97 +49,118 @@ Proof.
   destruct (dest s); [rewrite Hd|]; reflexivity.
 Qed.
 
-Lemma up_to_date_own c g code :
-  format c = false -> up_to_date c g (output c g code) = true.
-Proof.
-  intro Hf. unfold BuildScript.up_to_date, BuildScript.output. rewrite Hf.
-  rewrite firstn_app_exact. apply text_eqb_refl.
-Qed.
-
-(* with rustfmt: as long as formatting keeps header and prefix at the front *)
-Lemma up_to_date_own_fmt c g code :
-  firstn (length (source_header c g)) (fmt (source_header c g ++ NL ++ code)) = source_header c g ->
-  format c = true -> up_to_date c g (output c g code) = true.
-Proof.
-  intros Hk Hf. unfold BuildScript.up_to_date, BuildScript.output. rewrite Hf, Hk. apply text_eqb_refl.
-Qed.
-
-(* a destination already produced from the same grammar, prefix and library is left untouched *)
-Theorem idempotent c s s1 :
-  format c = false -> run c s = (ROk, s1) -> run c s1 = (ROk, s1).
-Proof.
-  intros Hf H. unfold BuildScript.run in *. destruct (gfile s) as [g|] eqn:Hg; [|discriminate].
-  destruct (match dest s with Some d => up_to_date c g d | None => false end) eqn:U.
-  - injection H as H. subst s1. rewrite Hg, U. reflexivity.
-  - destruct (compile g) as [code|] eqn:C; [|discriminate]. injection H as H. subst s1. cbn [gfile dest].
-    rewrite up_to_date_own by exact Hf. reflexivity.
-Qed.
-
 (* a successful run either wrote the compilation of the current grammar, or found
-   a destination that starts with the expected header and prefix *)
+   a destination that starts with the expected header *)
 Theorem ok_fresh_or_shortcut c s s1 :
   run c s = (ROk, s1) ->
   (fresh c s1 /\ writes s1 = S (writes s)) \/
   (s1 = s /\ exists g d, gfile s = Some g /\ dest s = Some d /\ up_to_date c g d = true).
 Proof.
+  assert (W : forall g code, compile g = Some code ->
+              fresh c {| gfile := Some g; dest := Some (output c g code); writes := S (writes s) |}).
+  { intros g code C. unfold BuildScript.fresh. cbn [gfile dest]. rewrite C.
+    unfold BuildScript.output. destruct (format c); auto. }
   unfold BuildScript.run. destruct (gfile s) as [g|] eqn:Hg; [|discriminate].
   destruct (dest s) as [d|] eqn:Hd.
   - destruct (up_to_date c g d) eqn:U.
     + intro H. injection H as <-. right. split; [reflexivity|]. exists g, d. auto.
     + destruct (compile g) as [code|] eqn:C; [|discriminate]. intro H. injection H as <-.
-      left. split; [|reflexivity]. unfold BuildScript.fresh. cbn [gfile dest]. rewrite C. reflexivity.
+      left. split; [|reflexivity]. apply W. exact C.
   - destruct (compile g) as [code|] eqn:C; [|discriminate]. intro H. injection H as <-.
-    left. split; [|reflexivity]. unfold BuildScript.fresh. cbn [gfile dest]. rewrite C. reflexivity.
+    left. split; [|reflexivity]. apply W. exact C.
 Qed.
 
-(* freshness, provided the header+prefix test cannot be fooled by the file that is there *)
-Theorem fresh_if_no_confusion c s s1 :
-  run c s = (ROk, s1) ->
-  (forall g d code, gfile s = Some g -> dest s = Some d -> compile g = Some code ->
-                    up_to_date c g d = true -> d = output c g code) ->
-  fresh c s1.
+(* ---- what the header has to provide ------------------------------------------------ *)
+(* fixed width: version, build time and the two checksums are printed with fixed widths *)
+Hypothesis Hlen : forall g p g' p', length (hdr g p) = length (hdr g' p').
+(* rustfmt leaves the leading comment lines alone *)
+Hypothesis Hfmt : forall c g code,
+  firstn (length (source_header c g)) (fmt (content c g code)) = source_header c g.
+
+Lemma head_of_output c g code c' g' :
+  firstn (length (source_header c' g')) (output c g code) = source_header c g.
 Proof.
-  intros H NC. destruct (ok_fresh_or_shortcut _ _ _ H) as [[F _]|[-> [g [d [Hg [Hd U]]]]]]; [exact F|].
-  unfold BuildScript.fresh. rewrite Hg. destruct (compile g) as [code|] eqn:C; [|exact I].
-  rewrite Hd. f_equal. eapply NC; eauto.
+  unfold BuildScript.source_header at 1. rewrite (Hlen g' (prefix c') g (prefix c)).
+  fold (source_header c g). unfold BuildScript.output. destruct (format c); [apply Hfmt|].
+  unfold BuildScript.content. apply firstn_app_exact.
 Qed.
 
-(* ---- the unconditional statement is false: a prefix that shrinks to a prefix of the old one *)
-Lemma text_eqb_prefix a b : text_eqb a (firstn (length a) (a ++ b)) = true.
-Proof. rewrite firstn_app_exact. apply text_eqb_refl. Qed.
+Lemma up_to_date_own c g code : up_to_date c g (output c g code) = true.
+Proof. unfold BuildScript.up_to_date. rewrite head_of_output. apply text_eqb_refl. Qed.
 
-Theorem stale_after_prefix_shrink g code p q :
-  compile g = Some code -> q <> [] ->
-  let c0 := {| prefix := p ++ q; format := false |} in
-  let c1 := {| prefix := p; format := false |} in
-  let s0 := {| gfile := Some g; dest := None; writes := 0 |} in
-  let '(c, s) := exec [ORun; OPrefix p; ORun] (c0, s0) in
-  c = c1 /\ dest s = Some (output c0 g code) /\ writes s = 1 /\ ~ fresh c1 s.
+(* a destination already produced from the same grammar, prefix and library is left untouched *)
+Theorem idempotent c s s1 : run c s = (ROk, s1) -> run c s1 = (ROk, s1).
 Proof.
-  intros C Hq. cbn zeta.
-  set (c0 := {| prefix := p ++ q; format := false |}).
-  set (c1 := {| prefix := p; format := false |}).
-  set (s1 := {| gfile := Some g; dest := Some (output c0 g code); writes := 1 |}).
-  assert (R1 : run c0 {| gfile := Some g; dest := None; writes := 0 |} = (ROk, s1)).
-  { unfold BuildScript.run. cbn [gfile dest writes]. rewrite C. reflexivity. }
-  assert (U : up_to_date c1 g (output c0 g code) = true).
-  { unfold BuildScript.up_to_date, BuildScript.output, BuildScript.source_header, c0, c1. cbn [format prefix].
-    replace ((hdr g ++ NL ++ p ++ q) ++ NL ++ code) with ((hdr g ++ NL ++ p) ++ (q ++ NL ++ code))
-      by (rewrite <- !app_assoc; reflexivity).
-    apply text_eqb_prefix. }
-  assert (R2 : run c1 s1 = (ROk, s1)).
-  { unfold BuildScript.run, s1. cbn [gfile dest]. rewrite U. reflexivity. }
-  unfold BuildScript.exec. cbn [fold_left BuildScript.step]. rewrite R1. cbn [snd prefix format].
-  change {| prefix := p; format := format c0 |} with c1. rewrite R2. cbn [snd]. split; [reflexivity|]. split; [reflexivity|]. split; [reflexivity|].
-  unfold BuildScript.fresh, s1. cbn [gfile dest]. rewrite C. intro E. injection E as E.
-  unfold BuildScript.output, BuildScript.source_header, c0, c1 in E. cbn [format prefix] in E.
-  apply (f_equal (@length N)) in E. rewrite !app_length in E.
-  destruct q; [congruence|]. cbn in E. lia.
+  intros H. unfold BuildScript.run in *. destruct (gfile s) as [g|] eqn:Hg; [|discriminate].
+  destruct (match dest s with Some d => up_to_date c g d | None => false end) eqn:U.
+  - injection H as H. subst s1. rewrite Hg, U. reflexivity.
+  - destruct (compile g) as [code|] eqn:C; [|discriminate]. injection H as H. subst s1. cbn [gfile dest].
+    rewrite up_to_date_own. reflexivity.
+Qed.
+
+(* ... also when formatting was switched on or off in between *)
+Theorem idempotent_other_format c c' s s1 :
+  prefix c' = prefix c -> run c s = (ROk, s1) -> run c' s1 = (ROk, s1).
+Proof.
+  intros Hp H. unfold BuildScript.run in *. destruct (gfile s) as [g|] eqn:Hg; [|discriminate].
+  assert (SH : source_header c' g = source_header c g) by (unfold BuildScript.source_header; rewrite Hp; reflexivity).
+  destruct (match dest s with Some d => up_to_date c g d | None => false end) eqn:U.
+  - injection H as H. subst s1. rewrite Hg. destruct (dest s) as [d|]; [|discriminate].
+    unfold BuildScript.up_to_date in *. rewrite SH, U. reflexivity.
+  - destruct (compile g) as [code|] eqn:C; [|discriminate]. injection H as H. subst s1. cbn [gfile dest].
+    unfold BuildScript.up_to_date. rewrite head_of_output. rewrite SH. rewrite text_eqb_refl. reflexivity.
+Qed.
+
+(* ---- freshness ------------------------------------------------------------------------ *)
+(* the header identifies grammar text and prefix (no checksum collision among the texts in play) *)
+Hypothesis Hinj : forall g p g' p', hdr g p = hdr g' p' -> g = g' /\ p = p'.
+
+Theorem fresh_after_run c s s1 :
+  produced s -> run c s = (ROk, s1) -> fresh c s1 /\ produced s1.
+Proof.
+  intros P H. destruct (ok_fresh_or_shortcut _ _ _ H) as [[F W]|[-> [g [d [Hg [Hd U]]]]]].
+  - split; [exact F|]. unfold BuildScript.run in H. destruct (gfile s) as [g|]; [|discriminate].
+    destruct (match dest s with Some d => up_to_date c g d | None => false end).
+    + injection H as <-. lia.
+    + destruct (compile g) as [code|] eqn:C; [|discriminate]. injection H as <-.
+      unfold BuildScript.produced. cbn [dest]. exists c, g, code. auto.
+  - split; [|exact P]. unfold BuildScript.produced in P. rewrite Hd in P.
+    destruct P as (c' & g' & code' & C' & ->).
+    unfold BuildScript.up_to_date in U. rewrite head_of_output in U. apply text_eqb_eq in U.
+    unfold BuildScript.source_header in U. apply Hinj in U. destruct U as [<- Hp].
+    unfold BuildScript.fresh. rewrite Hg, C', Hd.
+    assert (E : content c' g code' = content c g code').
+    { unfold BuildScript.content, BuildScript.source_header. rewrite Hp. reflexivity. }
+    unfold BuildScript.output. rewrite E. destruct (format c'); auto.
+Qed.
+
+Lemma step_produced c s o c' s' : produced s -> step (c, s) o = (c', s') -> produced s'.
+Proof.
+  intros P H. destruct o; cbn in H; injection H as <- <-; try exact P; try exact I.
+  destruct (run c s) as [r s1] eqn:R. cbn [snd]. destruct r.
+  - exact (proj2 (fresh_after_run c s s1 P R)).
+  - rewrite (failed_run_untouched _ _ _ R). exact P.
+Qed.
+
+Lemma exec_produced ops : forall c s c' s', produced s -> exec ops (c, s) = (c', s') -> produced s'.
+Proof.
+  induction ops as [|o ops IH]; intros c s c' s' P H; unfold BuildScript.exec in H; cbn [fold_left] in H;
+    [injection H as <- <-; exact P|].
+  destruct (step (c, s) o) as [c1 s1] eqn:S1. eapply IH; [|exact H]. eapply step_produced; eauto.
+Qed.
+
+(* whatever sequence of grammar edits, prefix and formatting changes, destination deletions and
+   earlier runs preceded it: after a successful run the destination is the compilation of the
+   grammar file as it is now *)
+Theorem fresh_after_history ops c0 s0 c s s' :
+  produced s0 -> exec ops (c0, s0) = (c, s) -> run c s = (ROk, s') -> fresh c s'.
+Proof.
+  intros P E R. exact (proj1 (fresh_after_run c s s' (exec_produced ops c0 s0 c s P E) R)).
 Qed.
 
 (* the number of writes never decreases; only a successful run or a deletion changes the destination *)
 Theorem step_dest c s o c' s' :
-  step hdr compile fmt (c, s) o = (c', s') ->
+  step (c, s) o = (c', s') ->
   dest s' = dest s \/ o = ODelete \/ (o = ORun /\ writes s' = S (writes s)).
 Proof.
   destruct o; cbn; intro H; injection H as <- <-; auto.
@@ -146,3 +170,55 @@ Proof.
 Qed.
 
 End BSOk.
+
+(* ---- without the hypothesis on the header: a checksum collision leaves a stale destination ---- *)
+Theorem stale_after_collision hdr compile fmt g g' p code :
+  hdr g p = hdr g' p -> compile g = Some code ->
+  let c := {| prefix := p; format := false |} in
+  let s0 := {| gfile := Some g; dest := None; writes := 0 |} in
+  let s2 := snd (exec hdr compile fmt [ORun; OEdit (Some g'); ORun] (c, s0)) in
+  gfile s2 = Some g' /\ dest s2 = Some (content hdr c g code) /\ writes s2 = 1.
+Proof.
+  intros E C. cbn zeta.
+  set (c := {| prefix := p; format := false |}).
+  set (s1 := {| gfile := Some g; dest := Some (content hdr c g code); writes := 1 |}).
+  assert (R1 : run hdr compile fmt c {| gfile := Some g; dest := None; writes := 0 |} = (ROk, s1)).
+  { unfold run. cbn [gfile dest writes]. rewrite C. reflexivity. }
+  set (s1' := {| gfile := Some g'; dest := Some (content hdr c g code); writes := 1 |}).
+  assert (U : up_to_date hdr c g' (content hdr c g code) = true).
+  { unfold up_to_date, content, source_header, c. cbn [prefix]. rewrite <- E.
+    rewrite firstn_app_exact. apply text_eqb_refl. }
+  assert (R2 : run hdr compile fmt c s1' = (ROk, s1')).
+  { unfold run, s1'. cbn [gfile dest]. rewrite U. reflexivity. }
+  unfold exec. cbn [fold_left step]. rewrite R1. cbn [snd gfile dest writes s1].
+  change {| gfile := Some g'; dest := Some (content hdr c g code); writes := 1 |} with s1'.
+  rewrite R2. cbn. auto.
+Qed.
+
+(* ---- the algorithm before the repair: a prefix that shrinks to a prefix of the old one ---------- *)
+Lemma text_eqb_prefix a b : text_eqb a (firstn (length a) (a ++ b)) = true.
+Proof. rewrite firstn_app_exact. apply text_eqb_refl. Qed.
+
+Theorem old_stale_after_prefix_shrink compile hdr_old g code p q :
+  compile g = Some code -> q <> [] ->
+  let c0 := {| prefix := p ++ q; format := false |} in
+  let c1 := {| prefix := p; format := false |} in
+  let s0 := {| gfile := Some g; dest := None; writes := 0 |} in
+  let s1 := {| gfile := Some g; dest := Some (output_old hdr_old c0 g code); writes := 1 |} in
+  run_old compile hdr_old c0 s0 = (ROk, s1) /\
+  run_old compile hdr_old c1 s1 = (ROk, s1) /\
+  output_old hdr_old c0 g code <> output_old hdr_old c1 g code.
+Proof.
+  intros C Hq. cbn zeta. split; [|split].
+  - unfold run_old. cbn [gfile dest writes]. rewrite C. reflexivity.
+  - unfold run_old. cbn [gfile dest writes].
+    assert (U : up_to_date_old hdr_old {| prefix := p; format := false |} g
+                  (output_old hdr_old {| prefix := p ++ q; format := false |} g code) = true).
+    { unfold up_to_date_old, output_old, source_header_old. cbn [prefix].
+      replace ((hdr_old g ++ NL ++ p ++ q) ++ NL ++ code) with ((hdr_old g ++ NL ++ p) ++ (q ++ NL ++ code))
+        by (rewrite <- !app_assoc; reflexivity).
+      apply text_eqb_prefix. }
+    rewrite U. reflexivity.
+  - unfold output_old, source_header_old. cbn [prefix]. intro E.
+    apply (f_equal (@length N)) in E. rewrite !app_length in E. destruct q; [congruence|]. cbn in E. lia.
+Qed.
